@@ -48,6 +48,7 @@ type compSess struct {
 	inStale     bool
 	inSent      int
 	inNotes     string
+	notesOff    bool // on a tree without fixes/C07-fpa-record-notes.diff: a live GetMove call used rule notes that are not those of the record
 	staleEffect bool // such a call did something (command sent, rule notes changed, searcher asked, move returned, panic)
 }
 
@@ -121,6 +122,9 @@ func compStart(kind, arg, colour string, size, secs int, gameNo string, pinned b
 		cs.calls++
 		cs.inP, cs.inCtx = p, ctx
 		cs.inStale, cs.inSent, cs.inNotes = ctx.Err() != nil, len(b.sent), cs.c.VerifRuleNotes()
+		if ctx.Err() == nil && cs.c.VerifNotesOutOfStep(p) {
+			cs.notesOff = true
+		}
 		return []fpa.VerifChk{{V: cs.chk[0], Depth: int(cs.chk[1])}, {V: cs.chk[2]}}, true
 	}
 	cs.c.Search = func(ctx context.Context, p *tak.Position) tak.Move {
@@ -184,8 +188,16 @@ func compStart(kind, arg, colour string, size, secs int, gameNo string, pinned b
 
 func (cs *compSess) status() string {
 	cs.b.mu.Lock()
-	d, st := cs.dead, cs.staleEffect && !cs.pinned
+	d, st, off := cs.dead, cs.staleEffect && !cs.pinned, cs.notesOff
 	cs.b.mu.Unlock()
+	if off {
+		// never printed by the model (it is of the patched code), never set on a patched tree: known finding C07-fpa-resume-panic
+		return "notes-" + cs.statusInner(d, st)
+	}
+	return cs.statusInner(d, st)
+}
+
+func (cs *compSess) statusInner(d, st bool) string {
 	pre := ""
 	if st {
 		// never printed by the model: GetMove ran, with effects, for a thinker whose invocation was over
